@@ -81,7 +81,7 @@ func (m *MMR) Replace(sequence []types.MmrPeak, index int, value types.MmrPeak) 
 func (m *MMR) P(peaks []types.MmrPeak, l types.MmrPeak, n int) []types.MmrPeak {
 	// if n >= l
 	if n >= len(peaks) {
-		return append(peaks, l)
+		return append(peaks[:len(peaks):len(peaks)], l)
 	}
 
 	// 2. if peaks[n] is empty
